@@ -119,11 +119,24 @@ def snapshot(model):
     return [[ord(sec), key, [list(r) for r in ast.policy]] for sec, d in model.model.items() for key, ast in d.items()]
 
 
+FILTER_MODES = ("fresh", "reused", "reused-in-place")
+
+
+def new_filter():
+    f = Filter()
+    f.P, f.G = [], []
+    return f
+
+
 class Sut:
     """one real Enforcer + FilteredFileAdapter on a temp file"""
 
-    def __init__(self, tmpdir, text, gcount):
-        self.path = os.path.join(tmpdir, "policy.csv")
+    def __init__(self, tmpdir, text, gcount, filter_mode="fresh", shared_filter=None, name="policy.csv"):
+        # filter_mode: "fresh" = a new Filter object per load; "reused" = the caller keeps ONE Filter object and assigns
+        # new P / G lists to it before every load; "reused-in-place" = one Filter object whose P / G lists are edited in place
+        self.filter_mode = filter_mode
+        self.flt = shared_filter if shared_filter is not None else new_filter()
+        self.path = os.path.join(tmpdir, name)
         with open(self.path, "wb") as f:
             f.write(text.encode("utf-8"))
         self.gcount = gcount
@@ -147,9 +160,18 @@ class Sut:
             if op[0] == 0:
                 self.e.load_policy()
             elif op[0] in (1, 2):
-                f = Filter()
-                f.P = list(op[1])
-                f.G = list(op[2])
+                if self.filter_mode == "fresh":
+                    f = Filter()
+                    f.P = list(op[1])
+                    f.G = list(op[2])
+                elif self.filter_mode == "reused":
+                    f = self.flt
+                    f.P = list(op[1])
+                    f.G = list(op[2])
+                else:
+                    f = self.flt
+                    f.P[:] = list(op[1])
+                    f.G[:] = list(op[2])
                 (self.e.load_filtered_policy if op[0] == 1 else self.e.load_increment_filtered_policy)(f)
             else:
                 self.e.save_policy()
@@ -158,10 +180,10 @@ class Sut:
             return [999, classify_exception(ex)]
 
 
-def run_trace(text, gcount, ops):
+def run_trace(text, gcount, ops, filter_mode="fresh"):
     """-> (base model snapshot, [ [outcome, [flag, model, links, file]] per step ])"""
     with tempfile.TemporaryDirectory(prefix="c12_") as d:
-        sut = Sut(d, text, gcount)
+        sut = Sut(d, text, gcount, filter_mode)
         out = []
         for op in ops:
             r = sut.apply(op)
@@ -377,12 +399,34 @@ def gen_ops(rng, rules, first=None):
     return ops
 
 
+def gen_blank_filter(rng):
+    return [rng.choice(BLANKV) for _ in range(rng.choice([0, 0, 1, 2, 3]))], [rng.choice(BLANKV) for _ in range(rng.choice([0, 0, 1, 2, 3]))]
+
+
+def gen_ops_boundary(rng, rules, lo=2, hi=6):
+    """sequences that cross the boundary between empty (no position or blank positions only) and restricting filters
+    again and again, with save attempts in between"""
+    ops = []
+    for _ in range(rng.randint(lo, hi)):
+        r = rng.random()
+        if r < 0.5:
+            kind = 1 if rng.random() < 0.7 else 2
+            ops.append([kind, *(gen_blank_filter(rng) if rng.random() < 0.4 else gen_filter(rng, rules))])
+        elif r < 0.65:
+            ops.append([0])
+        else:
+            ops.append([3])
+    return ops
+
+
 # ----------------------------------------------------------------------------- one case
-def judge(chk, text, gcount, ops, record=True, stratum=""):
-    base, steps = run_trace(text, gcount, ops)
+def judge(chk, text, gcount, ops, record=True, stratum="", filter_mode="fresh"):
+    base, steps = run_trace(text, gcount, ops, filter_mode)
     model = chk.oracle.query([(1, [counts_wire(gcount), text, base, ops])])[0]
     bad, nontrivial = spec_check(chk, text, gcount, ops, base, steps)
     case = dict(kind="trace", file=text, gcount=gcount, ops=ops, stratum=stratum)
+    if filter_mode != "fresh":
+        case["filter_object"] = filter_mode
     verdict = "ok"
     if bad:
         verdict = "spec:" + str(bad[0][4]) if bad[0][4] else "spec"
@@ -399,9 +443,9 @@ def judge(chk, text, gcount, ops, record=True, stratum=""):
     return verdict, base, steps, model, nontrivial
 
 
-def shrink(chk, text, gcount, ops, verdict):
+def shrink(chk, text, gcount, ops, verdict, filter_mode="fresh"):
     def fails(t, o):
-        return bool(o) and judge(chk, t, gcount, o, record=False)[0] == verdict
+        return bool(o) and judge(chk, t, gcount, o, record=False, filter_mode=filter_mode)[0] == verdict
     changed = True
     while changed:
         changed = False
@@ -433,7 +477,7 @@ def shrink(chk, text, gcount, ops, verdict):
     return text, ops
 
 
-def run(chk, n_random, masks_files, maxlen):
+def run(chk, n_random, masks_files, maxlen, n_reuse=0, n_pairs=0):
     if chk.oracle is None:
         chk.notes.append("oracle unavailable; correspondence not run")
         return
@@ -469,12 +513,28 @@ def run(chk, n_random, masks_files, maxlen):
         (full, 2, [[1, ["alice", "", "", ""], ["alice", "", ""]]], "fixed"),
         ("", 2, [[1, ["alice"], []], [3], [0], [3]], "fixed"),
     ]
+    # D: the caller keeps ONE Filter object and edits it between the loads (new lists assigned / lists edited in place),
+    # the sequences cross the empty / restricting boundary in both directions
+    for mode in FILTER_MODES[1:]:
+        cases += [
+            (full, 2, [[1, [], []], [1, ["alice"], []], [3], [1, ["", " "], [""]], [3]], "filter_object_" + mode + "/fixed", mode),
+            (full, 2, [[1, ["bob"], ["alice"]], [3], [1, [], []], [3], [2, ["alice"], []], [3]], "filter_object_" + mode + "/fixed", mode),
+            (full, 2, [[2, [" "], []], [2, ["", "data2"], []], [3], [0], [1, ["alice"], []], [1, ["", ""], ["", ""]], [3]],
+             "filter_object_" + mode + "/fixed", mode),
+        ]
+        for _ in range(n_reuse):
+            gcount = rng.choice([2, 3])
+            text, rules = gen_file(rng, gcount, rng.choice(["plain", "plain", "odd"]))
+            cases.append((text, gcount, gen_ops_boundary(rng, rules), "filter_object_" + mode, mode))
     counts = {}
     covered_masks = set()
-    for text, gcount, ops, st in cases:
-        verdict, base, steps, model, nontrivial = judge(chk, text, gcount, ops, record=False, stratum=st)
+    for case in cases:
+        text, gcount, ops, st = case[:4]
+        fmode = case[4] if len(case) > 4 else "fresh"
+        verdict, base, steps, model, nontrivial = judge(chk, text, gcount, ops, record=False, stratum=st, filter_mode=fmode)
+        st = st.split("/")[0]
         counts[st] = counts.get(st, 0) + 1
-        chk.count((text, gcount, json.dumps(ops)) if nontrivial else None)
+        chk.count(((text, gcount, json.dumps(ops)) + (() if fmode == "fresh" else (fmode,))) if nontrivial else None)
         if st == "masks":
             covered_masks.add((tuple(not blank(v) for v in ops[0][1]), tuple(not blank(v) for v in ops[0][2])))
         if nontrivial and len(chk.samples) < 4:
@@ -487,13 +547,14 @@ def run(chk, n_random, masks_files, maxlen):
             if len(chk.spec_failures if verdict.startswith("spec") else chk.disagreements) >= 3:
                 chk.extra["further_failures_not_shrunk"] = chk.extra.get("further_failures_not_shrunk", 0) + 1
                 continue
-            t2, o2 = shrink(chk, text, gcount, ops, verdict)
-            judge(chk, t2, gcount, o2, record=True, stratum=st + "/shrunk")
+            t2, o2 = shrink(chk, text, gcount, ops, verdict, fmode)
+            judge(chk, t2, gcount, o2, record=True, stratum=st + "/shrunk", filter_mode=fmode)
         elif len(vm_reqs) < (160 if chk.tier == "quick" else 800) and len(text) < 200:
             vm_reqs.append((1, [counts_wire(gcount), text, base, ops]))
             vm_reps.append(model)
     stratum_store_unavailable(chk)
     stratum_duck_adapter(chk)
+    stratum_two_enforcers(chk, n_pairs)
     chk.traces += len(cases)
     chk.extra.setdefault("strata", {}).update(counts)
     chk.extra["filter_masks_covered"] = f"{len(covered_masks)}/64 (blank/non-blank over 3 positions of P x 3 positions of G)"
@@ -626,13 +687,153 @@ def stratum_duck_adapter(chk):
     chk.extra.setdefault("strata", {})["duck_typed_adapter"] = n
 
 
+# ----------------------------------------------------------------------------- two enforcers, two adapters, two stores in one process
+def run_pair(files, gcounts, events, filter_mode):
+    """events: [[who, op], ...] - op is applied to enforcer `who` (0 / 1); each enforcer has its own FilteredFileAdapter
+    on its own policy file.  -> ([base0, base1], [steps0, steps1], frame) where steps_i are the own steps of enforcer i
+    ([outcome, observation after the step]) and frame = first event after which the OTHER enforcer's observation
+    (is_filtered, loaded policy, links, file bytes) differed from the one before the event, or None."""
+    with tempfile.TemporaryDirectory(prefix="c12_") as d:
+        shared = new_filter() if filter_mode.endswith("-shared") else None
+        mode = filter_mode[:-len("-shared")] if shared is not None else filter_mode
+        suts = [Sut(d, files[i], gcounts[i], mode, shared, name=f"policy{i}.csv") for i in (0, 1)]
+        steps, frame = [[], []], None
+        for k, (who, op) in enumerate(events):
+            other = 1 - who
+            ob = suts[other].observe()
+            r = suts[who].apply(op)
+            steps[who].append([r, suts[who].observe()])
+            oa = suts[other].observe()
+            if frame is None and oa != ob:
+                comp = next(n for n, a, b in zip(("is_filtered()", "the loaded policy", "the role links", "the policy file"), ob, oa) if a != b)
+                frame = (k, other, comp, ob[0], oa[0])
+        return [s.base for s in suts], steps, frame
+
+
+def judge_pair(chk, files, gcounts, events, filter_mode, record=True, stratum="two_enforcers"):
+    """SPEC: each enforcer's own steps satisfy spec_check (subset, flag, save refusal, file bytes, links) against ITS store
+    and agree with the model's run of ITS trace alone; an operation on one enforcer leaves the other one's is_filtered(),
+    loaded policy, links and store as they were."""
+    bases, steps, frame = run_pair(files, gcounts, events, filter_mode)
+    case = dict(kind="two-enforcers", files=files, gcounts=gcounts, events=events, filter_object=filter_mode, stratum=stratum)
+    verdict, nontrivial = "ok", False
+    for i in (0, 1):
+        ops = [op for who, op in events if who == i]
+        if not ops:
+            continue
+        bad, nt = spec_check(chk, files[i], gcounts[i], ops, bases[i], steps[i])
+        nontrivial = nontrivial or nt
+        if bad:
+            fid = bad[0][4]
+            verdict = "spec:" + str(fid) if fid else "spec"
+            if record:
+                j, what, want, got, fid = bad[0]
+                chk.spec_fail(dict(case, enforcer=i), dict(own_step=j, got=got, outcomes=[s[0] for s in steps[i]]), want,
+                              what + f" [enforcer {i} of two that live in one process, each with its own adapter and store]", finding=fid)
+            return verdict, nontrivial
+    if frame is not None:
+        k, other, comp, fb, fa = frame
+        if record:
+            chk.spec_fail(case, dict(event=k, enforcer_changed=other, component=comp, is_filtered_before=fb, is_filtered_after=fa),
+                          "unchanged", f"an operation on one enforcer changed {comp} of ANOTHER enforcer that has its own adapter and "
+                          "store (the filtered state of a loaded policy ends only by an empty filter or a full load of THAT enforcer)")
+        return "spec-frame", nontrivial
+    reqs = [(1, [counts_wire(gcounts[i]), files[i], bases[i], [op for who, op in events if who == i]]) for i in (0, 1)]
+    models = chk.oracle.query(reqs)
+    for i in (0, 1):
+        if canon(steps[i]) != models[i]:
+            if record:
+                first = next((j for j, (a, b) in enumerate(zip(canon(steps[i]), models[i])) if a != b), None)
+                chk.disagree(dict(case, enforcer=i), dict(own_step=first, impl=canon(steps[i])[first] if first is not None else None),
+                             models[i][first] if first is not None and first < len(models[i]) else models[i],
+                             where=f"two enforcers: own step {first} of enforcer {i}: implementation vs model of its trace alone")
+            return "model", nontrivial
+    return verdict, nontrivial
+
+
+def shrink_pair(chk, files, gcounts, events, filter_mode, verdict):
+    changed = True
+    while changed:
+        changed = False
+        for i in range(len(events)):
+            cand = events[:i] + events[i + 1:]
+            if cand and judge_pair(chk, files, gcounts, cand, filter_mode, record=False)[0] == verdict:
+                events, changed = cand, True
+                break
+    return events
+
+
+def stratum_two_enforcers(chk, n):
+    """TWO enforcers alive in one process, each with its own FilteredFileAdapter object on its own policy file; their traces
+    (filtered / incremental / full loads, empty filters, save attempts) are interleaved at random."""
+    rng = chk.rng
+    full = "p, alice, data1, read\np, bob, data2, write\ng, alice, admin\ng, bob, admin\ng2, data1, data_group\np2, alice, read\n"
+    other = "p, bob, data1, write\np, admin, data2, read\ng, bob, admin\np2, bob, write\n"
+    cases = [
+        ([full, other], [2, 2], [[0, [1, ["alice"], []]], [1, [0]], [0, [3]], [1, [3]]], "fresh"),
+        ([full, other], [2, 2], [[1, [0]], [0, [1, ["alice"], []]], [1, [3]], [0, [3]]], "fresh"),
+        ([full, other], [2, 2], [[0, [1, ["", "data2"], ["bob"]]], [1, [1, [], []]], [0, [3]], [1, [3]], [0, [0]], [1, [1, ["bob"], []]], [0, [3]], [1, [3]]], "fresh"),
+        ([full, full], [2, 2], [[0, [1, ["alice"], []]], [1, [1, [" "], [""]]], [0, [3]], [1, [2, ["bob"], []]], [0, [1, [], []]], [1, [3]], [0, [3]]], "reused-shared"),
+    ]
+    for _ in range(n):
+        gcounts = [rng.choice([2, 3]), rng.choice([2, 3])]
+        files, rules = [], []
+        for i in (0, 1):
+            t, r = gen_file(rng, gcounts[i], rng.choice(["plain", "plain", "odd"]))
+            files.append(t)
+            rules.append(r)
+        opss = [gen_ops_boundary(rng, rules[i], 1, 5) for i in (0, 1)]
+        sched = [0] * len(opss[0]) + [1] * len(opss[1])
+        rng.shuffle(sched)
+        idx = [0, 0]
+        events = []
+        for who in sched:
+            events.append([who, opss[who][idx[who]]])
+            idx[who] += 1
+        cases.append((files, gcounts, events, rng.choice(["fresh", "fresh", "reused", "reused-in-place", "reused-shared"])))
+    done = 0
+    for files, gcounts, events, mode in cases:
+        verdict, nontrivial = judge_pair(chk, files, gcounts, events, mode, record=False)
+        done += 1
+        chk.count(("two-enforcers", json.dumps(files), json.dumps(events), mode) if nontrivial else None)
+        if verdict != "ok":
+            if verdict.startswith("spec:") and verdict[5:] in chk.known_hits:
+                chk.extra["known_finding_cases"] = chk.extra.get("known_finding_cases", 0) + 1
+                continue
+            if len(chk.spec_failures if verdict.startswith("spec") else chk.disagreements) >= 3:
+                chk.extra["further_failures_not_shrunk"] = chk.extra.get("further_failures_not_shrunk", 0) + 1
+                continue
+            ev2 = shrink_pair(chk, files, gcounts, events, mode, verdict)
+            judge_pair(chk, files, gcounts, ev2, mode, record=True, stratum="two_enforcers/shrunk")
+    chk.traces += done
+    st = chk.extra.setdefault("strata", {})
+    st["two_enforcers_interleaved"] = st.get("two_enforcers_interleaved", 0) + done
+
+
 def replay(chk):
     rec = json.load(open(chk.replay_file))
     c = rec.get("case") or {}
+    if c.get("kind") == "two-enforcers":
+        n0 = (len(chk.spec_failures), len(chk.known_hits), len(chk.disagreements))
+        verdict, _ = judge_pair(chk, c["files"], c["gcounts"], c["events"], c.get("filter_object", "fresh"), record=True)
+        print(f"replay (two enforcers, events interleaved): verdict={verdict}")
+        if chk.spec_failures:
+            print(f"  spec: {chk.spec_failures[0]['what']}")
+            print(f"VIOLATION property={PROP} replay={chk.replay_file}")
+            sys.exit(1)
+        if chk.known_hits:
+            print(f"KNOWN-FINDING: property={PROP} {sorted(chk.known_hits)[0]}")
+            sys.exit(0)
+        if chk.disagreements:
+            print(f"  {chk.disagreements[0]['where']}")
+            print(f"VIOLATION property={PROP} replay={chk.replay_file} no-failing-input-found")
+            sys.exit(1)
+        print("replay passes: implementation agrees with the spec on this input")
+        sys.exit(0)
     if c.get("kind") != "trace":
         print("replay file names a broken theorem/correspondence, not an input:", json.dumps(rec.get("broken"))[:800])
         sys.exit(1)
-    verdict, base, steps, model, _ = judge(chk, c["file"], c["gcount"], c["ops"], record=False)
+    verdict, base, steps, model, _ = judge(chk, c["file"], c["gcount"], c["ops"], record=False, filter_mode=c.get("filter_object", "fresh"))
     bad, _ = spec_check(chk, c["file"], c["gcount"], c["ops"], base, steps)
     print(f"replay: outcomes={[s[0] for s in steps]} flags={[s[1][0] for s in steps]} model_agrees={canon(steps) == model}")
     if bad:
@@ -655,7 +856,10 @@ def main():
                 "rules, lengths 0-4) x sequences of 1-6 operations among load_filtered_policy, "
                 "load_increment_filtered_policy, load_policy, save_policy on a real Enforcer + FilteredFileAdapter with "
                 "g = _,_ or g = _,_,_ ; a case is non-trivial when some filtered/incremental load with a non-empty "
-                "filter keeps at least one and drops at least one p or g rule; distinct by (file, model, operations)")
+                "filter keeps at least one and drops at least one p or g rule; distinct by (file, model, operations); "
+                "the same kind of trace with ONE Filter object kept by the caller and edited between the loads (sequences crossing "
+                "the empty / restricting boundary), and pairs of such traces interleaved on TWO enforcers with their own adapter "
+                "objects and stores in one process")
     chk.assumptions = [
         "filters carry both attributes P and G as lists of strings (a Filter with only one of them set raises 'invalid filter type')",
         "the length clause of filter_words is part of the characterisation: a filter with more positions than the rule has fields drops the rule even if the extra positions are blank (C12_kept_iff states it)",
@@ -671,12 +875,12 @@ def main():
     if chk.replay_file:
         return replay(chk)
     if chk.tier == "thorough":
-        run(chk, 20000, 20, 6)
+        run(chk, 20000, 20, 6, 2500, 4000)
     else:
-        run(chk, 1200, 3, 5)
+        run(chk, 1200, 3, 5, 150, 250)
         if (chk.broken() or chk.anchor_changed) and not chk.spec_failures:
             chk.notes.append("escalated to a bigger budget after a broken proof/correspondence")
-            run(chk, 2500, 4, 5)
+            run(chk, 2500, 4, 5, 400, 800)
     chk.finish()
 
 
